@@ -128,11 +128,23 @@ func parseStrace(logPath, root, ackPath string) ([]fsEvent, error) {
 		pid, rest := m[1], m[2]
 		if strings.HasSuffix(rest, "<unfinished ...>") {
 			pending[pid] = strings.TrimSuffix(rest, "<unfinished ...>")
+			// a close takes effect when it is issued: by the time its completion is logged the number may already
+			// belong to a file another thread has opened in between
+			if strings.HasPrefix(rest, "close(") {
+				if n, err := strconv.Atoi(strings.TrimSpace(strings.SplitN(strings.TrimSuffix(strings.TrimPrefix(strings.TrimSpace(pending[pid]), "close("), ")"), "<", 2)[0])); err == nil {
+					delete(fds, n)
+				}
+				pending[pid] = "closed-early("
+			}
 			continue
 		}
 		if strings.HasPrefix(rest, "<... ") {
 			i := strings.Index(rest, "resumed>")
 			if i < 0 {
+				continue
+			}
+			if pending[pid] == "closed-early(" {
+				delete(pending, pid)
 				continue
 			}
 			rest = pending[pid] + rest[i+len("resumed>"):]
@@ -152,12 +164,33 @@ func parseStrace(logPath, root, ackPath string) ([]fsEvent, error) {
 			n, _ := strconv.Atoi(strings.TrimSpace(strings.SplitN(a, "<", 2)[0]))
 			return n
 		}
+		// strace -y annotates every descriptor with its path: "7</dir/file>". The table of open descriptors kept here
+		// (needed for the file offsets) is checked against it: two threads can close and re-open the same number between
+		// the two log lines of one call, and then the annotation is right and the table is not
+		annot := func(a string) string {
+			a = strings.TrimSpace(a)
+			i, j := strings.Index(a, "<"), strings.LastIndex(a, ">")
+			if i < 0 || j < i {
+				return ""
+			}
+			return strings.TrimSuffix(string(unhex(a[i+1:j])), " (deleted)")
+		}
+		lookup := func(a string) *fdState {
+			st := fds[fdOf(a)]
+			if p := annot(a); p != "" && filepath.IsAbs(p) {
+				if st == nil || st.path != p {
+					st = &fdState{path: p, off: sizes[p], app: false}
+					fds[fdOf(a)] = st
+				}
+			}
+			return st
+		}
 		// resolve a path argument relative to a directory descriptor argument (os.RemoveAll works that way)
 		at := func(dirArg, p string) string {
 			if filepath.IsAbs(p) || strings.HasPrefix(strings.TrimSpace(dirArg), "AT_FDCWD") {
 				return p
 			}
-			if st := fds[fdOf(dirArg)]; st != nil {
+			if st := lookup(dirArg); st != nil {
 				return filepath.Join(st.path, p)
 			}
 			return p
@@ -197,7 +230,7 @@ func parseStrace(logPath, root, ackPath string) ([]fsEvent, error) {
 		case "close":
 			delete(fds, fdOf(args[0]))
 		case "write", "pwrite64":
-			st := fds[fdOf(args[0])]
+			st := lookup(args[0])
 			if st == nil {
 				continue
 			}
@@ -233,19 +266,19 @@ func parseStrace(logPath, root, ackPath string) ([]fsEvent, error) {
 				sizes[st.path] = off + int64(len(data))
 			}
 		case "lseek":
-			st := fds[fdOf(args[0])]
+			st := lookup(args[0])
 			if st != nil {
 				st.off = ret
 			}
 		case "ftruncate":
-			st := fds[fdOf(args[0])]
+			st := lookup(args[0])
 			if st != nil && under(st.path) {
 				n, _ := strconv.ParseInt(strings.TrimSpace(args[1]), 10, 64)
 				sizes[st.path] = n
 				events = append(events, fsEvent{Kind: "truncate", Path: st.path, Len: n})
 			}
 		case "fsync", "fdatasync":
-			st := fds[fdOf(args[0])]
+			st := lookup(args[0])
 			if st != nil && under(st.path) {
 				events = append(events, fsEvent{Kind: "fsync", Path: st.path})
 			}
@@ -382,6 +415,46 @@ func treeDigest(dir string) string {
 	return sb.String()
 }
 
+// replayExplainsFinal: does the directory rebuilt from the traced events explain the directory the child really
+// left? System calls that were in flight when the process exited complete in the kernel without a log line, so the
+// real directory may hold a few more entries, longer files, or lack one entry that was being removed; anything else
+// means the trace was not understood. Returns "" or the first unexplained difference.
+func replayExplainsFinal(replayed, real string) string {
+	missing := 0
+	var bad string
+	filepath.Walk(replayed, func(p string, info os.FileInfo, err error) error {
+		if err != nil || bad != "" {
+			return nil
+		}
+		rel, _ := filepath.Rel(replayed, p)
+		rp := filepath.Join(real, rel)
+		st, err := os.Stat(rp)
+		if err != nil {
+			missing++
+			if missing > 1 {
+				bad = rel + " is in the replayed image but not in the real directory"
+			}
+			if info.IsDir() {
+				return filepath.SkipDir
+			}
+			return nil
+		}
+		if info.IsDir() != st.IsDir() {
+			bad = rel + " differs in kind"
+			return nil
+		}
+		if !info.IsDir() {
+			a, _ := os.ReadFile(p)
+			b, _ := os.ReadFile(rp)
+			if len(b) < len(a) || !bytes.Equal(a, b[:len(a)]) {
+				bad = fmt.Sprintf("%s: replayed %d bytes are not a prefix of the real %d bytes", rel, len(a), len(b))
+			}
+		}
+		return nil
+	})
+	return bad
+}
+
 func hashBytes(b []byte) uint64 {
 	var h uint64 = 1469598103934665603
 	for _, c := range b {
@@ -425,7 +498,7 @@ func runTracedOnce(sub string, args interface{}, root, ackPath, logPath string, 
 	argFile := logPath + ".args.json"
 	must(os.WriteFile(argFile, a, 0644))
 	defer os.Remove(argFile)
-	cmd := exec.Command("strace", "-f", "-xx", "-s", "16777216", "-o", logPath,
+	cmd := exec.Command("strace", "-f", "-y", "-xx", "-s", "16777216", "-o", logPath,
 		"-e", "trace=open,openat,creat,close,write,pwrite64,lseek,ftruncate,fsync,fdatasync,rename,renameat,renameat2,unlink,unlinkat,rmdir,mkdir,mkdirat",
 		self, sub, "--args", "@"+argFile)
 	var out bytes.Buffer
